@@ -2,7 +2,7 @@
 # usage: tools/keepseed2.sh <ID> <a|b>  -- confirms a round-2 sub-agent change (from /tmp/seed/<ID>-out/<x>) in a scratch
 # worktree of /repo HEAD and keeps it under /verif/seeded/<ID>-2<x>
 export GOFLAGS=-mod=mod GOPROXY=off GOSUMDB=off GOTOOLCHAIN=local
-id="$1"; x="$2"; round="${3:-2}"; sd=/tmp/seed; [ "$round" = 3 ] && sd=/tmp/seed3; [ "$round" = 4 ] && sd=/tmp/seed4; [ "$round" = 5 ] && sd=/tmp/seed5; [ "$round" = 6 ] && sd=/tmp/seed6; [ "$round" = 7 ] && sd=/tmp/seed7; name="$id-$round$x"; src=$sd/$id-out/$x; wt=/tmp/seedchk-$name
+id="$1"; x="$2"; round="${3:-2}"; sd=/tmp/seed; [ "$round" = 3 ] && sd=/tmp/seed3; [ "$round" = 4 ] && sd=/tmp/seed4; [ "$round" = 5 ] && sd=/tmp/seed5; [ "$round" = 6 ] && sd=/tmp/seed6; [ "$round" = 7 ] && sd=/tmp/seed7; [ "$round" = 8 ] && sd=/tmp/seed8; name="$id-$round$x"; src=$sd/$id-out/$x; wt=/tmp/seedchk-$name
 set -e
 test -f $src/patch.diff && test -f $src/meta.json
 rm -rf $wt; git -C /repo worktree add -q --detach $wt HEAD
